@@ -326,6 +326,24 @@ Definition run_dilated_decision (a : list Z) : list Z :=
   | _ => [-1]
   end.
 
+(* CMD widen_kernel = 11 : kh kw dh dw fill w[kh*kw] (row major) -> [hwdil_h hwdil_w newh neww values...] *)
+Fixpoint take_rows (n : nat) (m : nat) (a : list Z) : list (list Z) :=
+  match n with
+  | O => []
+  | S n' => firstn m a :: take_rows n' m (skipn m a)
+  end.
+Definition run_widen_kernel (a : list Z) : list Z :=
+  match a with
+  | kh :: kw :: dh :: dw :: fill :: ws =>
+      let rh := Z.to_nat (kernel_spread dh) in
+      let rw := Z.to_nat (kernel_spread dw) in
+      let khn := Z.to_nat kh in
+      let kwn := Z.to_nat kw in
+      let m := widened2 khn kwn rh rw (take_rows khn kwn ws) fill in
+      [hw_dilation dh; hw_dilation dw; Z.of_nat (widened_len khn rh); Z.of_nat (widened_len kwn rw)] ++ concat m
+  | _ => [-1]
+  end.
+
 Definition run (cmd : Z) (a : list Z) : list Z :=
   if cmd =? 1 then run_driver_payload a
   else if cmd =? 2 then run_driver_parse a
@@ -337,4 +355,5 @@ Definition run (cmd : Z) (a : list Z) : list Z :=
   else if cmd =? 8 then run_check_preserved a
   else if cmd =? 9 then run_check_inference a
   else if cmd =? 10 then run_dilated_decision a
+  else if cmd =? 11 then run_widen_kernel a
   else [-1].
